@@ -173,6 +173,54 @@ def oracle(p):
                 fail("C13:lie_bracket:affine-value:explicit-spacing",
                      f"lie_bracket(spacing=2/n) of two affine fields on align_corners=False coordinates differs from Jv u - Ju v by {d:.3g} (shape {shape})", case)
 
+    # ---- lie_bracket(mode='bspline'): operands are cubic B-spline coefficients, the bracket lives on the evaluated lattice ----
+    from deepali.core.bspline import evaluate_cubic_bspline
+    for it in range(max(6, n // 8)):
+        D = rng.choice([2, 3])
+        shape = tuple(rng.randint(5, 8 if D == 2 else 6) for _ in range(D))
+        stride = [None, 1, 2][it % 3]
+        spacing = [0.5, tuple(rng.choice([0.25, 0.5, 1.5]) for _ in range(D)), None][(it // 3) % 3]
+        gen = torch.Generator().manual_seed(rng.randrange(10 ** 6))
+        v, v2, u = (torch.rand((1, D) + shape, dtype=torch.float64, generator=gen) - 0.5 for _ in range(3))
+        a, b = rng.uniform(-2, 2), rng.uniform(-2, 2)
+        case = {"D": D, "shape": list(shape), "mode": "bspline", "stride": stride, "spacing": spacing}
+        lb = lambda x, y: FL.lie_bracket(x, y, mode="bspline", stride=stride, spacing=spacing)
+        try:
+            count(f"lie:bspline:stride={stride}")
+            w = lb(v, u)
+            s_ = 1 if stride is None else stride
+            if tuple(w.shape) != (1, D) + tuple((m - 3) * s_ for m in shape):
+                fail("C13:lie_bracket:bspline:shape", f"lie_bracket(mode='bspline', stride={stride}) has shape {tuple(w.shape)} for coefficients {shape}", case)
+            sc = float(w.abs().max())
+            l1 = float((lb(a * v + b * v2, u) - (a * w + b * lb(v2, u))).abs().max())
+            l2 = float((lb(u, a * v + b * v2) - (a * lb(u, v) + b * lb(u, v2))).abs().max())
+            an = float((w + lb(u, v)).abs().max())
+            sf = float(lb(v, v).abs().max())
+            if not max(l1, l2) <= 1e-9 * (1 + sc):
+                fail("C13:lie_bracket:bilinear:mode=bspline", f"lie_bracket(mode='bspline') is not bilinear: deviations {l1:.3g}, {l2:.3g} ({case})", case)
+            if not max(an, sf) <= 1e-9 * (1 + sc):
+                fail("C13:lie_bracket:antisymmetric:mode=bspline", f"mode='bspline': [v,u] + [u,v] = {an:.3g}, [v,v] = {sf:.3g} ({case})", case)
+            # coefficients affine in the control point index: the splines are affine, J = A / spacing, values on the evaluated lattice
+            if spacing is not None:
+                idx = torch.stack(torch.meshgrid(*[torch.arange(m, dtype=torch.float64) for m in shape], indexing="ij")).flip(0)
+                A_ = torch.tensor([[rng.uniform(-0.5, 0.5) for _ in range(D)] for _ in range(D)], dtype=torch.float64)
+                B_ = torch.tensor([[rng.uniform(-0.5, 0.5) for _ in range(D)] for _ in range(D)], dtype=torch.float64)
+                off = (1, D) + (1,) * D
+                va = (torch.einsum("ij,j...->i...", A_, idx)).unsqueeze(0) + torch.tensor([rng.uniform(-1, 1) for _ in range(D)]).reshape(off)
+                ua = (torch.einsum("ij,j...->i...", B_, idx)).unsqueeze(0) + torch.tensor([rng.uniform(-1, 1) for _ in range(D)]).reshape(off)
+                sp = torch.tensor([spacing] * D if isinstance(spacing, float) else list(spacing), dtype=torch.float64)
+                Ja, Jb = A_ / sp.reshape(1, D), B_ / sp.reshape(1, D)          # d v_i / d x_j = A_ij / spacing_j
+                ue, ve = evaluate_cubic_bspline(ua, stride=s_), evaluate_cubic_bspline(va, stride=s_)
+                want = torch.einsum("ij,nj...->ni...", Ja, ue) - torch.einsum("ij,nj...->ni...", Jb, ve)
+                d = float((lb(va, ua) - want).abs().max())
+                count("lie:bspline:affine-value")
+                if not d <= 1e-9 * (1 + float(want.abs().max())):
+                    fail("C13:lie_bracket:affine-value:mode=bspline",
+                         f"mode='bspline': bracket of two fields with affine coefficients differs from Jv u - Ju v on the evaluated lattice by {d:.3g} ({case})", case)
+        except Exception as e:  # noqa
+            fail("C13:lie_bracket:raises:mode=bspline", f"lie_bracket(mode='bspline', stride={stride}, spacing={spacing}) on coefficients of shape "
+                                                         f"{shape} raised {type(e).__name__}: {str(e)[:120]}", case)
+
     # ---- compose_svfs ----
     for it in range(max(12, n // 2)):
         D = rng.choice([2, 3])
